@@ -89,6 +89,17 @@ def scenarios(pid, quick):
             add('pilots2/stage:tmgr_in/%d%d' % order, tasks,
                 {'t1': 0, 't2': 0}, fault='stage:tmgr_in', fault_uid='t1',
                 pilots=2)
+        # two tasks pushed one by one which the queue hands to the executor
+        # (the output stager) as one bulk
+        for f in ('nolauncher', 'popen', 'exec', 'exit1', 'stage:agent_out'):
+            d = dict(STAGE_FAULT.get(f, {}))
+            for order in ((0, 1), (1, 0)):
+                tasks = [{'uid': 't1', 'descr': d}, {'uid': 't2'}]
+                tasks = [dict(tasks[i]) for i in order]
+                tasks[0]['with_next'] = True
+                add('merge/%s/%d%d' % ((f,) + order), tasks,
+                    {'t1': 1 if f == 'exit1' else 0, 't2': 0},
+                    fault=f, fault_uid='t1', merge_at=['exec', 'agent_out'])
         # a bulk whose work routine raises while one of its tasks is named
         # by a cancel request: that task ends CANCELED (request seen first)
         # or FAILED (with the bulk) - one of them, announced once
